@@ -16,7 +16,7 @@ RULE = (
     "UnitSystemManager.ConvertScalarToCurrent, number operands on both sides, sums whose operand was created directly on a derived quantity that writes two categories of one quantity type in different units. Invariant after every step: a deep "
     "snapshot of every pool member (class, value / container type, identity and contents, FractionValue number, "
     "numerator, denominator, unit, category, quantity identity, the quantity's composing map, composing units and unit name, dimension) and of every caller-owned container is "
-    "unchanged; arithmetic results are new objects; copy, deepcopy, CreateCopy(), pickle == original. Non-trivial = "
+    "unchanged; arithmetic results are new objects; copy, deepcopy, CreateCopy(), pickle == original. CreateCopy() and pickle round trips made while another database (a second instance of the shipped table) is current still equal the original. Non-trivial = "
     "sequence with a step that converts units on an operand holding a caller-owned mutable container or a "
     "FractionValue; key = the sequence."
 )
@@ -24,6 +24,8 @@ ASSUMPTIONS = ["the container returned by GetValues() is the caller's own object
 BUDGET_S = {"quick": 120, "thorough": 1200}
 N = {"quick": 600, "thorough": 5000}
 SHARDS = {"quick": 8, "thorough": 16}
+
+_OTHER_DB = None
 
 # two categories of one quantity type written in different units, and a third spelling for the other operand
 MIXED = [
@@ -212,6 +214,32 @@ class Machine:
             self.flags.add("converted")
             ctx.cls("mixed_sum_done")
             self.new_object(r, (a, b))
+        elif kind == "copy_while_another_database_is_current":
+            # applications switch databases (PushSingleton): a copy or pickle round trip made while another database -
+            # here a second instance of the shipped table - is current still equals the original
+            a = self.pick(op[1])
+            if a is None:
+                return
+            global _OTHER_DB
+            if _OTHER_DB is None:
+                _OTHER_DB = env.new_db("posc")
+            try:
+                with env.pushed(_OTHER_DB):
+                    c = a.CreateCopy()
+                    p = pickle.loads(pickle.dumps(a, op[2] % (pickle.HIGHEST_PROTOCOL + 1))) if isinstance(a, (Scalar, FixedArray)) and not isinstance(a, FractionScalar) else None
+            except EXC as e:
+                ctx.cls("copy_under_other_database_rejected:" + type(e).__name__)
+                return
+            ctx.cls("copy_under_other_database_done")
+            for what, o in (("CreateCopy()", c), ("pickle round trip", p)):
+                if o is None:
+                    continue
+                try:
+                    same = bool(o == a) and bool(a == o)
+                except EXC:
+                    same = False
+                if not same:
+                    self.fail("copy_not_equal:made_while_another_database_is_current", "%s of %r made while another database was current gives %r, which is not equal to it" % (what, a, o))
         elif kind == "new_empty":
             if op[1] % 2:
                 self.add(Scalar.CreateEmptyScalar(VALUES[op[2] % len(VALUES)]))
@@ -467,6 +495,7 @@ def op_strategy():
         new,
         st.tuples(st.just("new_empty"), i, i),
         st.tuples(st.just("mixed_sum"), i, i, i, i, i),
+        st.tuples(st.just("copy_while_another_database_is_current"), i, i),
         st.tuples(st.just("binop"), i, i, i),
         st.tuples(st.just("binop"), i, i, i),
         st.tuples(st.just("binop"), i, i, i),
